@@ -2,6 +2,8 @@ import FordModel.Proto
 import FordModel.Escape
 import FordModel.Show
 import FordModel.AttrStmt
+import FordModel.ProcPrefix
+import FordModel.DeclLine
 import FordModel.Generated.C18
 namespace Ford
 open Proto Html Show
@@ -87,6 +89,52 @@ def run (kind : Str) (xs : List Str) : List Str :=
   | _ => ["bad-request".toList]
 
 end Cleanup18
+
+/-! `c18.prochead`: what `_procedure_initialize` / `FortranFunction._initialize` make of the groups of
+    SUBROUTINE_RE / FUNCTION_RE: attributes (`N` = None, `S<text>`), arguments (`N` / `S(<list>)`), result name
+    (`N` / `S<name>`), procedure name.  Answer: counted prefix keywords, counted argument names, then the result:
+    `N<name>` (still a name) or `T` vartype kind strlen proto-name proto-args (each `N` / `S<text>`) -/
+namespace ProcHead18
+open ProcPrefix
+
+def optOf : Str → Option Str
+  | 'S' :: t => some t
+  | _ => none
+
+def showOpt : Option Str → Str
+  | none => ['N']
+  | some t => 'S' :: t
+
+def run (attributes arguments result name : Str) : List Str :=
+  let table := Generated.C18.procPrefixes
+  let byWord := Generated.C18.prefixByWord
+  let attrText := (optOf attributes).getD []
+  let pa := procAttrs byWord table attrText
+  let args := match optOf arguments with
+    | some a => if a.isEmpty then [] else procArgs a
+    | none => []
+  let retName := match optOf result with
+    | some r => if r.isEmpty then name else r
+    | none => name
+  match resultTypeOf byWord table attrText with
+  | .error _ => ["err".toList, "unmodelled".toList]
+  | .ok none =>
+    "ok".toList :: showNat pa.1.length :: pa.1 ++ showNat args.length :: args ++ [pa.2, 'N' :: retName]
+  | .ok (some p) =>
+    "ok".toList :: showNat pa.1.length :: pa.1 ++ showNat args.length :: args ++
+      [pa.2, ['T'], p.vartype, showOpt p.kind, showOpt p.strlen,
+       showOpt (p.proto.map (·.1)), showOpt (p.proto.map (·.2))]
+
+end ProcHead18
+
+def terrName18 : TypeSpec.TErr → Str
+  | .invalidDecl => "bad-number".toList   -- the four ValueErrors of parse_type (the recorder's name for ValueError)
+  | .badType => "bad-number".toList
+  | .badProto => "bad-number".toList
+  | .tooMany => "bad-number".toList
+  | .parenErr => "RuntimeError".toList
+  | .attrErr => "no-match".toList
+  | .unmodelled => "unsupported".toList
 
 def rerrName18 : RErr → Str
   | .badEscape => "bad-escape".toList
@@ -179,6 +227,32 @@ def dispatchC18 : List Str → Option (List Str)
     else if cmd == "c18.fdecl".toList then
       match args with
       | ft :: dim :: par :: attribs => some ["ok".toList, fullDeclaration ft attribs dim (boolOf par)]
+      | _ => some ["bad-request".toList]
+    else if cmd == "c18.line".toList then
+      -- lower option, eqJoin, inherited permission, statement -> per variable: name, dimension, points, initial,
+      -- intent, optional, permission, parameter, vartype, kind, strlen, proto name, proto args, counted attribs
+      match args with
+      | [f, j, perm, s] =>
+        match DeclLine.lineVars Generated.C18.declAttrRules (boolOf f) (boolOf j) perm s with
+        | .error (.type e) => some ["err".toList, terrName18 e]
+        | .error (.ent e) => some ["err".toList, rerrName18 e]
+        | .ok vs =>
+          some ("ok".toList :: (vs.map fun v =>
+            varFields ⟨v.name, v.dimension, v.points, v.initial⟩ ++
+            [v.attrs.intent, if v.attrs.optional then ['1'] else ['0'], v.attrs.permission,
+             if v.attrs.parameter then ['1'] else ['0'], v.vartype, ProcHead18.showOpt v.kind,
+             ProcHead18.showOpt v.strlen, ProcHead18.showOpt (v.proto.map (·.1)),
+             ProcHead18.showOpt (v.proto.map (·.2)), showNat v.attrs.attribs.length] ++ v.attrs.attribs).flatten)
+      | _ => some ["bad-request".toList]
+    else if cmd == "c18.procattrs".toList then
+      match args with
+      | [s] =>
+        let r := ProcPrefix.procAttrs Generated.C18.prefixByWord Generated.C18.procPrefixes s
+        some ("ok".toList :: r.2 :: r.1)
+      | _ => some ["bad-request".toList]
+    else if cmd == "c18.prochead".toList then
+      match args with
+      | [a, b, c, d] => some (ProcHead18.run a b c d)
       | _ => some ["bad-request".toList]
     else if cmd == "c18.cleanup".toList then
       match args with
